@@ -160,9 +160,13 @@ type c04Spec struct {
 	SafeBrowsing bool     `json:"safebrowsing"`
 	Parental     bool     `json:"parental"`
 	SafeSearch   bool     `json:"safesearch"`
-	OwnServices  bool     `json:"use_own_blocked_services"`
-	Services     []string `json:"services"`
-	Tags         []string `json:"tags"`
+	// SafeSearchObject says whether Persistent.SafeSearch is set.  The
+	// production constructors (home.clientObject.toPersistent, jsonToClient)
+	// build the object exactly when the client's own safe search is enabled.
+	SafeSearchObject bool     `json:"safesearch_object_present"`
+	OwnServices      bool     `json:"use_own_blocked_services"`
+	Services         []string `json:"services"`
+	Tags             []string `json:"tags"`
 }
 
 // c04Client is a client of the shadow model.
@@ -232,13 +236,19 @@ func c04Build(spec c04Spec) (p *client.Persistent, m *c04Client, err error) {
 			IDs:      slices.Clone(spec.Services),
 		},
 		Tags:                  slices.Clone(spec.Tags),
-		SafeSearch:            ss,
 		SafeSearchConf:        filtering.SafeSearchConfig{Enabled: spec.SafeSearch},
 		UseOwnSettings:        spec.OwnSettings,
 		FilteringEnabled:      spec.Filtering,
 		SafeBrowsingEnabled:   spec.SafeBrowsing,
 		ParentalEnabled:       spec.Parental,
 		UseOwnBlockedServices: spec.OwnServices,
+	}
+	if spec.SafeSearchObject {
+		p.SafeSearch = ss
+	} else {
+		// The interface stays nil, as in production for a client whose own safe
+		// search is off.
+		ss = nil
 	}
 	if err = p.SetIDs(slices.Clone(spec.IDs)); err != nil {
 		return nil, nil, err
@@ -274,6 +284,7 @@ type c04State struct {
 	ownerChanges int
 	rejected     int
 	lastOwner    map[string]int
+	nAnySS       int
 }
 
 func (h *c04State) byName(name string) *c04Client {
@@ -451,6 +462,15 @@ func c04MakeProbes() (p c04Probes) {
 	return p
 }
 
+// c04AnySS in a wanted result means "any safe-search object".
+const c04AnySS = "<any>"
+
+// c04SwitchStats counts, for requests attributed to a client, how often each
+// of the five per-client switches was observed with the client's own value
+// on/off against the global value on/off: [switch][client uses own][own value][global value].
+var c04SwitchStats [5][2][2][2]int
+var c04SwitchNames = [5]string{"filtering", "safebrowsing", "parental", "safesearch", "blocked-services"}
+
 var (
 	c04GlobalBS = &filtering.BlockedServices{Schedule: schedule.EmptyWeekly(), IDs: []string{"global-sentinel"}}
 	c04GlobalSS = &c04SafeSearch{id: "<global>"}
@@ -601,7 +621,17 @@ func c04WantApply(c *c04Client, g bool) (o c04ApplyOut) {
 	o.Tags = c.tags
 	if c.spec.OwnSettings {
 		o.Filtering, o.SafeSearch, o.SafeBrows, o.Parental = c.spec.Filtering, c.spec.SafeSearch, c.spec.SafeBrowsing, c.spec.Parental
-		o.SSOwner = c.ss.id
+		switch {
+		case c.ss != nil:
+			o.SSOwner = c.ss.id
+		case !c.spec.SafeSearch:
+			// Own safe search is off and the client has no safe-search object:
+			// the flag must read off; which object is left in the settings is
+			// of no consequence and not judged.
+			o.SSOwner = c04AnySS
+		default:
+			o.SSOwner = "<nil>"
+		}
 	}
 	if c.spec.OwnServices {
 		o.Services = append([]string{}, c.spec.Services...)
@@ -623,7 +653,7 @@ func c04ApplyDiff(got, want c04ApplyOut) string {
 		return "parental-flag"
 	case got.SafeSearch != want.SafeSearch:
 		return "safesearch-flag"
-	case got.SSOwner != want.SSOwner:
+	case want.SSOwner != c04AnySS && got.SSOwner != want.SSOwner:
 		return "safesearch-object"
 	case (got.Services == nil) != (want.Services == nil) || !slices.Equal(got.Services, want.Services):
 		return "blocked-services"
@@ -665,6 +695,16 @@ func (h *c04State) checkApply(cid string, a netip.Addr, g bool, got c04ApplyOut,
 		return
 	}
 	want := c04WantApply(c, g)
+	gi := int(c04B(g) - '0')
+	for i, v := range [4]bool{c.spec.Filtering, c.spec.SafeBrowsing, c.spec.Parental, c.spec.SafeSearch} {
+		c04SwitchStats[i][int(c04B(c.spec.OwnSettings)-'0')][int(c04B(v)-'0')][gi]++
+	}
+	c04SwitchStats[4][int(c04B(c.spec.OwnServices)-'0')][int(c04B(len(c.spec.Services) > 0)-'0')][1]++
+	if c.spec.OwnSettings && c.ss == nil {
+		if want.SSOwner == c04AnySS {
+			h.nAnySS++
+		}
+	}
 	if d := c04ApplyDiff(got, want); d != "" {
 		own := "global"
 		if (d == "blocked-services" && c.spec.OwnServices) || (d != "blocked-services" && c.spec.OwnSettings) {
@@ -948,12 +988,21 @@ func (g *c04Gen) settings(spec *c04Spec) {
 	spec.SafeBrowsing = r.Intn(2) == 0
 	spec.Parental = r.Intn(2) == 0
 	spec.SafeSearch = r.Intn(2) == 0
+	// As production builds it: object present exactly when enabled.  Rarely
+	// the object is kept although safe search is off (a client struct built by
+	// other code); never enabled without an object.
+	spec.SafeSearchObject = spec.SafeSearch || r.Intn(8) == 0
 	spec.OwnServices = r.Intn(2) == 0
 	spec.Services = []string{c04SvcOf[spec.Name]}
 	if r.Intn(3) == 0 {
 		spec.Services = append(spec.Services, c04GlobalSvcs[r.Intn(len(c04GlobalSvcs))])
 	}
-	if r.Intn(6) == 0 {
+	switch r.Intn(8) {
+	case 0:
+		// No list at all: what the production constructors produce when the
+		// configuration / request names no blocked services.
+		spec.Services = nil
+	case 1:
 		spec.Services = []string{}
 	}
 	spec.Tags = []string{c04TagOf[spec.Name]}
@@ -1464,6 +1513,10 @@ func TestVerifC04(t *testing.T) {
 			nontrivial := h.rejected > 0 || h.ownerChanges > 0
 			rep.Eval(nontrivial, verifkit.JSON(h.ops))
 			rep.EventN("dhcp_mac_lookups_made_by_storage", h.dhcp.calls)
+			if h.nAnySS > 0 {
+				rep.EventN("requests_of_own_settings_client_without_safesearch_object", h.nAnySS)
+				rep.Unspec("which safe-search object is left in the settings when the client's own safe search is off")
+			}
 			if h.rejected > 0 {
 				rep.Class("history_with_rejected_operation")
 			}
@@ -1474,6 +1527,39 @@ func TestVerifC04(t *testing.T) {
 				rep.Sample(map[string]any{"history": h.ops})
 			}
 		}()
+	}
+
+	// Per-switch evidence: every switch must have been seen with the client's
+	// own value on and off, against the global value equal and opposite, for
+	// clients that use their own settings and for clients that do not.
+	onoff := [2]string{"off", "on"}
+	for i, name := range c04SwitchNames {
+		for own := 0; own < 2; own++ {
+			for v := 0; v < 2; v++ {
+				for g := 0; g < 2; g++ {
+					n := c04SwitchStats[i][own][v][g]
+					if i == 4 {
+						if g == 0 {
+							continue
+						}
+						ev := fmt.Sprintf("switch:blocked-services:client-uses-%s:own-list-%s", [2]string{"global", "own"}[own], [2]string{"empty", "non-empty"}[v])
+						rep.EventN(ev, n)
+						if n < 500 && !rep.Violated() {
+							rep.Inconcl(fmt.Sprintf("%s seen only %d times", ev, n))
+						}
+						continue
+					}
+					ev := fmt.Sprintf("switch:%s:client-uses-%s:own-%s:global-%s", name, [2]string{"global", "own"}[own], onoff[v], onoff[g])
+					rep.EventN(ev, n)
+					if n < 500 && !rep.Violated() {
+						rep.Inconcl(fmt.Sprintf("%s seen only %d times", ev, n))
+					}
+				}
+			}
+		}
+	}
+	if rep.Events["requests_of_own_settings_client_without_safesearch_object"] < 500 && !rep.Violated() {
+		rep.Inconcl("too few requests of own-settings clients whose safe search is off and whose safe-search object is nil")
 	}
 
 	// The run must have seen what the property is about.
